@@ -1,7 +1,7 @@
 (** extraction of the C02 model: specifications, sign layer over the regenerated tables, and the
     word-level as-is models instantiated at the 64-bit word of the default build *)
 Require Import FastZ.
-From Dashu Require Import Base.Prelude Base.Words Int.DivSpec Int.DivWordModel Int.DivWordInst.
+From Dashu Require Import Base.Prelude Base.Words Int.DivSpec Int.DivWordModel Int.DivWordInst Int.DivNumModular Int.DivSrcInst Int.DivPrim.
 From DashuGen Require Import SignTables Params.
 
 Definition m_repr_div_rem := i_repr_div_rem 64.
@@ -11,8 +11,20 @@ Definition m_const_div_rem := i_const_div_rem 64.
 Definition m_const_rem := i_const_rem 64.
 Definition m_kernel_asis := kernel_asis 64.
 Definition m_kernel_spec := kernel_spec 64.
+(** the fully transcribed instance (num-modular's reciprocal division as in barrett.rs, C01's add_signed_mul):
+    proved equal to the specification in Int/DivSrcInstProofs.v (C02_division_unconditional) *)
+Definition s64_repr_div_rem := s_repr_div_rem 64.
+Definition s64_repr_div := s_repr_div 64.
+Definition s64_repr_rem := s_repr_rem 64.
+Definition s64_const_div_rem := s_const_div_rem 64.
+Definition s64_const_rem := s_const_rem 64.
+Definition s64_kernel_asis := s_kernel_asis 64.
+(** primitive-typed operands (Int/DivPrim.v; = prim_form_spec by C02_prim_forms) and is_multiple_of_const *)
+Definition s64_is_multiple_of_const := is_multiple_of_const_asis 64 (nm1by1 64) (nm2by1 64) (nm2by2 64) (nm3by2 64) (nm4by2 64).
 
 Extraction "model.ml"
   form_spec ibig_form_asis ubig_form_asis ubig_ibig_form_asis ibig_ubig_form_asis
   const_ubig_form_asis const_ibig_form_asis div_threshold_simple
-  m_repr_div_rem m_repr_div m_repr_rem m_const_div_rem m_const_rem m_kernel_asis m_kernel_spec.
+  m_repr_div_rem m_repr_div m_repr_rem m_const_div_rem m_const_rem m_kernel_asis m_kernel_spec
+  s64_repr_div_rem s64_repr_div s64_repr_rem s64_const_div_rem s64_const_rem s64_kernel_asis
+  prim_form_asis prim_form_spec is_multiple_of_spec s64_is_multiple_of_const.
